@@ -5930,6 +5930,24 @@ impl BytecodeVM {
 
                 let prop_key = interp.property_key_from_value(key);
 
+                // Arrays are dense: refuse growth that cannot be stored with a catchable
+                // error (it used to abort the process on the failed allocation).
+                if matches!(obj_ref.borrow().exotic, ExoticObject::Array { .. }) {
+                    let requested = match (&prop_key, &value) {
+                        (PropertyKey::Index(idx), _) => Some(*idx as f64 + 1.0),
+                        (PropertyKey::String(s), JsValue::Number(n)) if s.as_str() == "length" => {
+                            if *n < 0.0 || *n != crate::prelude::math::trunc(*n) || *n > 4294967295.0 {
+                                return Err(JsError::range_error("Invalid array length"));
+                            }
+                            Some(*n)
+                        }
+                        _ => None,
+                    };
+                    if requested.is_some_and(|n| n > crate::value::MAX_ARRAY_LENGTH as f64) {
+                        return Err(JsError::range_error("Invalid array length"));
+                    }
+                }
+
                 // Check if object is frozen/sealed or property is non-writable
                 // First, check for accessor or non-writable property (including prototype chain)
                 let setter_to_call = {
